@@ -4,6 +4,18 @@ import json, os
 HERE = os.path.dirname(os.path.dirname(os.path.abspath(__file__)))
 
 CLAIMED = {
+    "C06": dict(
+        technique="type-directed order-taint inventory over MIR (hash-iteration consumers) with automatic discharge + reviewed exact-key table; comparator extraction; who-may-call deny list; identity path",
+        text="Decides: every consumer of a hash-ordered iteration in ruma-state-res is order-insensitive by construction or reviewed with its discharge (10 sites); the two discharging orders end in the "
+             "event id; no clock/thread/env/RNG call; unconflicted-only input returned as is. That listed commutative effects commute for the data at hand is argued per site, not proved.",
+        note="Trusted: reviewed reasons in spec/order_allow.json; precondition one room = one create event (creator cache).",
+        design="DESIGN.md §4 C06"),
+    "C07": dict(
+        technique="ordered-effect/provenance extraction of resolve's pipeline + decision table of is_power_event + comparator/heap/loop-shape rules + CFG rule insert-iff-authorised",
+        text="Decides structural clauses only: pipeline stage order and data flow, power-event definition (table vs spec), Kahn sort directions/Reverse heap/ready-only pushes/emit-once, mainline positions vs default "
+             "(known finding F06), insert iff auth_check Ok, auth-difference and unconflicted predicates. Equality with the specification's algorithm on all histories is NOT decided.",
+        note="Known finding F06 recorded (pinned by test_sort).",
+        design="DESIGN.md §4 C07"),
     "C12": dict(
         technique="decision/effect extraction from MIR for the iterators, get_match, the five kinds' applies, PushCondition dispatch, operator table; constant-order rule for key escaping; field-read rule for rule identity",
         text="Decides kind priority and wrapping, first-match semantics, own-event and disabled-rule exclusion, condition dispatch incl. _Custom -> false, word matching requested only for content.body/display name, "
